@@ -17,6 +17,8 @@ CHECKS = {
          "seeded search; sign and ordering of the nine fluxes checked on every simulated day", "DESIGN.md section 6 C04", "none beyond the harness"),
  "C05": ("exploration", "deterministic simulation: seeded swarm over all crops with restrictive layers, tables and stress events; crop envelope as per-day invariants",
          "seeded search; envelope checked on every in-season day against the season's crop parameters", "DESIGN.md section 6 C05", "reads the season's crop parameters from the initialised model"),
+ "C16": ("exploration", "deterministic simulation: covering catalogue sweep (crop x soil pairs by index, other dimensions and events PRNG-drawn), exception classifier + finiteness + termination as the invariant",
+         "seeded catalogue exploration with injected weather events; every exception is classified by type, message and call site; sampling, not proof", "DESIGN.md section 6 C16", "the list of permitted rejections in dst/domain.py encodes the property text"),
 }
 
 NOT_APPLICABLE = {
